@@ -52,6 +52,21 @@ def scratch_base(ctx):
     return os.path.join(ctx.scratch, "llamactl")
 
 
+def check_shape(ctx):
+    """The proofs are about a source in which all three clearing statements are present and profiles
+    are looked up by (name, api_url).  Generated.v carries these facts into Coq (C37_generated_shape);
+    they are also re-read here directly, because concurrent checks share coq/theories/Generated.v and
+    one of them may have rewritten it from another tree between our translation and our build."""
+    import translate
+    import translate_llamactl as TL
+    try:
+        shape = TL.extract(translate.src)
+    except (TL.Err, translate.TranslateError, SyntaxError, OSError) as e:
+        shape = "TRANSLATE-ERROR: %s" % e
+    if ("TRANSLATE-ERROR" in shape or ":= false" in shape) and not ctx.broken_obligations:
+        ctx.broken_obligations.append(("C37_generated_shape (source shape, re-read directly)", shape))
+
+
 def report_failure(ctx, ops, fail, origin):
     i, key, text = fail
     ctx.finding(key, "C37 fails on the real llamactl configuration code: after %s, %s"
@@ -82,6 +97,7 @@ def run(ctx):
         "the settings row current_environment_api_url exists (seeded by migration 0001, never deleted by the code)",
     ]
     ctx.prove()
+    check_shape(ctx)
     rng = random.Random(ctx.seed)
     base = scratch_base(ctx)
     shutil.rmtree(base, ignore_errors=True)
@@ -93,7 +109,7 @@ def run(ctx):
 
 
 def _run(ctx, rng, base):
-    n = ctx.n(360, 16000)
+    n = ctx.n(300, 16000)
     histories = [list(h) for h in CORPUS]
     for i in range(n):
         ln = rng.choice([4, 6, 8, 10, 12, 14, 16, 20])
@@ -116,20 +132,21 @@ def _run(ctx, rng, base):
             ctx.sample(dict(history=[list(o) for o in ops], last_observation=outs[-1]))
         if fail and not any(o[0] == "rawupdate" for o in ops[:fail[0] + 1]):
             mon_fail.append((ops, fail, "corpus" if idx < len(CORPUS) else "random"))
-    res = eval_cases(ctx, "llamactl", exprs, ctx.n(48, 250))
+    res = eval_cases(ctx, "llamactl", exprs, ctx.n(24, 300))
     bad = [i for i, z in enumerate(res) if z != 0]
     ctx.programs += len(histories)
     ctx.suite("llamactl", histories=len(histories), operations=sum(len(h) for h in histories),
               disagreements=len(bad), lengths=lens, coverage=dict(sorted(cov.items())))
     for c, m in (("stale_name_at_envdel", 3), ("stale_name_at_switch", 3), ("stale_name_at_envadd", 3),
                  ("same_name_in_two_envs", 50), ("active_some", 200), ("dangling_pointer", 20),
-                 ("rejected_create", 10), ("rejected_switch", 5), ("op_selany", 20), ("op_oidc", 20)):
+                 ("create_duplicate_or_blank", 10), ("switch_to_unknown_env", 5), ("select_missing_name", 5),
+                 ("op_selany", 20), ("op_oidc", 20)):
         ctx.require_coverage("llamactl", c, cov.get(c, 0), m)
 
     # exhaustive small scope on the real code
     depth = ctx.n(3, 5)
     edges, efail, stats = L.explore(base, depth)
-    eres = eval_cases(ctx, "llamactl.explore", [L.edge_expr(*e) for e in edges], ctx.n(100, 400))
+    eres = eval_cases(ctx, "llamactl.explore", [L.edge_expr(*e) for e in edges], ctx.n(70, 400))
     ebad = [i for i, z in enumerate(eres) if z != 0]
     ctx.count(len(edges))
     for lit, op, out in edges:
@@ -148,10 +165,13 @@ def _run(ctx, rng, base):
         cases = []
         for i in bad[:3]:
             k = res[i]
+            model = L.split_trace(ctx.eval_terms(L.HEADER, [L.trace_term(histories[i])])[0])
             cases.append(dict(history=[list(o) for o in histories[i][:k if k > 0 else None]], first_differing_op=k,
-                              implementation=results[i][0][k - 1] if k > 0 else None))
+                              implementation=results[i][0][k - 1] if k > 0 else None,
+                              model=model[k - 1] if 0 < k <= len(model) else None))
         for i in ebad[:3]:
-            cases.append(dict(state=edges[i][0], op=list(edges[i][1]), implementation=edges[i][2]))
+            cases.append(dict(state=edges[i][0], op=list(edges[i][1]), implementation=edges[i][2],
+                              model=ctx.eval_terms(L.HEADER, [L.edge_trace_term(edges[i][0], edges[i][1])])[0]))
         ctx.violation("model/implementation disagreement in suite llamactl (no property-level failing input found)",
                       dict(suite="llamactl", theorem=THEOREMS + " (Model/Llamactl.v no longer matches the code)",
                            cases=cases), found_input=False)
